@@ -51,9 +51,18 @@ def verdict(p):
             "panic": cli.panic_site(p.stderr)}
 
 
-def rejection_class(errors: list) -> str:
+def _has_array_or_map(t) -> bool:
+    return any(isinstance(x, (A, M)) for x in walk_types(t))
+
+
+def rejection_class(errors: list, new=None) -> str:
     """where a rejected compatible/partial edit landed, from the tool's own message"""
     t = " ".join(errors)
+    ma = re.search(r"this change to '(\w+)' is not backward compatible: base definitions are incompatible", t)
+    if ma and new is not None:
+        d = new.find(ma.group(1))
+        if isinstance(d, Al) and _has_array_or_map(d.type):     # the same array/map comparison reached through a named alias
+            return "in-array-or-map"
     m = re.search(r"from '([^']*)' to '([^']*)'", t)
     if m and any(("[" in x or "->" in x) for x in m.groups()):
         return "in-array-or-map"
@@ -185,7 +194,7 @@ def run(ctx):
                 ctx.violation("no-version-label:%s" % name, "%s: rejected but no error carries the version label: %s" % (what, v["errors"][:2]), case); ok = False
         elif expect in (evo.COMPATIBLE, evo.PARTIAL):
             if v["rc"] != 0:
-                ctx.violation("rejected:%s:%s" % (expect, rejection_class(v["errors"])), "%s: documented %s change rejected: %s" % (what, expect, v["errors"][:2]), case); ok = False
+                ctx.violation("rejected:%s:%s" % (expect, rejection_class(v["errors"], new)), "%s: documented %s change rejected: %s" % (what, expect, v["errors"][:2]), case); ok = False
             elif expect == evo.PARTIAL and not v["warnings"]:
                 ctx.violation("no-warning:%s" % name, "%s: partially compatible change accepted without a warning" % what, case); ok = False
         ctx.case((kind, bi, getattr(edit, "__name__", ""), rep))
